@@ -87,6 +87,9 @@ class VClock:
         self.calls = 0
         self.blocks = 0
         self.fire_at = None
+        self.fire_line = None
+        self.fire_occ = 1
+        self.line_hits = 0
         self.deep = False
         self.plan = {}            # block ordinal -> (gran, t)
         self.record = False       # record per-block path classes (profile run)
@@ -127,12 +130,19 @@ class VClock:
                     break
                 g = g.f_back
             self.site = site
-            ent = self.plan.get(self.blocks)
+            ent = self.plan.get(self.blocks) or self.plan.get('*')
             self.fire_at = None
+            self.fire_line = None
             self.deep = False
             if ent:
-                self.deep = ent[0] == 'deep'
-                self.fire_at = int(ent[1])
+                if ent[0] == 'line':
+                    # "this statement is slow every time": fire before the occ-th arrival at source line L
+                    self.fire_line = int(ent[1])
+                    self.fire_occ = int(ent[2]) if len(ent) > 2 else 1
+                    self.line_hits = 0
+                else:
+                    self.deep = ent[0] == 'deep'
+                    self.fire_at = int(ent[1])
             if self.deep or self.count_calls:
                 sys.settrace(self.gtrace)
             self.t0 = time.monotonic()
@@ -155,6 +165,7 @@ class VClock:
                                              self.calls if self.deep else self.ticks))
         self.open = False
         self.fire_at = None
+        self.fire_line = None
         if self.deep or self.count_calls:
             sys.settrace(None)
         self.deep = False
@@ -168,6 +179,7 @@ class VClock:
             self.profile.append((self.blocks, self.ticks, self.calls, tuple(self.path), self.site))
         self.open = False
         self.fire_at = None
+        self.fire_line = None
         if self.deep or self.count_calls:
             sys.settrace(None)
         self.deep = False
@@ -179,6 +191,16 @@ class VClock:
         self.ticks += 1
         if self.record:
             self.path.append(sys._getframe(1).f_lineno)
+        if self.fire_line is not None:
+            f = sys._getframe(1)
+            if f.f_lineno == self.fire_line:
+                self.line_hits += 1
+                if self.line_hits >= self.fire_occ:
+                    self.fire_line = None
+                    self.fired.append((self.blocks, 'line', self.ticks, f.f_code.co_name, f.f_lineno, self.site))
+                    self._consume()
+                    signal.raise_signal(signal.SIGALRM)
+            return
         if self.fire_at is not None and not self.deep and self.ticks >= self.fire_at:
             self.fire_at = None
             f = sys._getframe(1)
